@@ -127,7 +127,16 @@ class World(object):
         try:
             return self.containers[h]
         except KeyError:
-            raise Skip("no container %s" % (h,))
+            pass
+        if "#" in h:
+            # "<doc handle>#<k>": the k-th (mod n) bundle of that document as listed now
+            dh, k = h.rsplit("#", 1)
+            d = self.containers.get(dh)
+            if d is not None and d.is_document():
+                bs = list(d.bundles)
+                if bs:
+                    return bs[int(k) % len(bs)]
+        raise Skip("no container %s" % (h,))
 
     def doc(self, h):
         c = self.cont(h)
@@ -450,6 +459,8 @@ class World(object):
     def op_update(self, ch, oh):
         c = self.cont(ch)
         o = self.cont(oh)
+        if o is c:
+            raise Skip("discipline: update with itself")
         out = self._call(lambda: c.update(o))
         self.rescan()
         return out
@@ -463,6 +474,12 @@ class World(object):
         d = self.doc(dh)
         b = self.cont(bh)
         ident = None if idspec is None else self.name(idspec)
+        if b.is_bundle() and b.document is not None:
+            # re-attaching a bundle that a document already owns (moving it, or listing
+            # it twice under another identifier) is outside every property's quantifier
+            raise Skip("discipline: bundle already attached")
+        if b is d:
+            raise Skip("discipline: document added to itself")
         out = self._call(lambda: d.add_bundle(b, ident))
         self.rescan()
         return out
